@@ -297,6 +297,7 @@ func C03(c *core.Ctx) {
 	c03RowPrecision(c)
 	c03CopySiblings(c)
 	c03DefaultsKeepInput(c)
+	c03AdvancePrecision(c)
 	c.Rule("C03-R6", "each rate row's amount and surcharge are Percent.Of(the row's stored Base)", 2)
 	rateAmountFromBase(c, "C03-R6")
 	// R3
